@@ -169,6 +169,35 @@ def _work(item):
     except BaseException as e:  # noqa: BLE001
         out.append(({"kind": "adapter_call_fails", "step": "required_keyword_only", "family": c.family, "exc": common.classify_exc(e)},
                     {"call": c.record(), "message": str(e)[:300]}))
+    # 2d. repeated calls with keyword values that compare equal but differ in type (also inside tuples): each call's function
+    #     receives its own values - (2, 3) then (2.0, 3.0) then (True, 3)
+    seen_vals = []
+
+    def tuple_kw(*xs, coeffs=(1, 1), **_ignored):
+        seen_vals.append(coeffs)
+        r = xs[0] * coeffs[0]
+        return np.asarray(r + coeffs[1] if c.family == "reduce" else r)
+    if c.family == "reduce":
+        def tuple_kw_reduce(x, axis, *, coeffs=(1, 1)):
+            seen_vals.append(coeffs)
+            return np.asarray(np.sum(x, axis=axis) * coeffs[0] + coeffs[1])
+        fn_t = einx.numpy.adapt_numpylike_reduce(tuple_kw_reduce)
+    else:
+        fn_t = einx.numpy.adapt_numpylike_elementwise(tuple_kw) if len(c.arrays) == 1 else None
+    if fn_t is not None:
+        for coeffs in ((2, 3), (2.0, 3.0), (True, 3), (2, 3)):
+            seen_vals.clear()
+            try:
+                common.with_alarm(30, fn_t, c.desc, *[np.array(a) for a in c.arrays], **kw, coeffs=coeffs)
+            except BaseException as e:  # noqa: BLE001
+                out.append(({"kind": "adapter_call_fails", "step": "tuple_option", "family": c.family, "exc": common.classify_exc(e)},
+                            {"call": c.record(), "coeffs": repr(coeffs), "message": str(e)[:300]}))
+                break
+            got_t = seen_vals[-1] if seen_vals else None
+            if got_t is None or tuple(type(v) for v in got_t) != tuple(type(v) for v in coeffs) or tuple(got_t) != coeffs:
+                out.append(({"kind": "keyword_only_not_forwarded_verbatim", "tuple_option": True},
+                            {"call": c.record(), "given": repr(coeffs), "received": repr(got_t)}))
+                break
     # 3. wrong outputs make the call fail
     # 2b. a keyword-only option whose value is None is a value like any other
     log.clear()
